@@ -12,6 +12,7 @@ pub mod c07;
 pub mod c08;
 pub mod c09;
 pub mod c10;
+pub mod c15;
 pub mod c16;
 
 pub struct PropDef {
@@ -33,6 +34,7 @@ pub fn get(id: &str) -> Option<PropDef> {
         "C08" => Some(c08::def()),
         "C09" => Some(c09::def()),
         "C10" => Some(c10::def()),
+        "C15" => Some(c15::def()),
         "C16" => Some(c16::def()),
         _ => None,
     }
